@@ -70,6 +70,7 @@ func f2DisjointPool() []altShape {
 		{"q*d", func() *ag.Expr { return ag.S(ag.U(ag.Star, lit("q")), lit("d")) }, nil},
 		{"(rx/sy)", func() *ag.Expr { return ag.A(ag.S(lit("r"), lit("x")), ag.S(lit("s"), lit("y"))) }, nil},
 		{"R", func() *ag.Expr { return ag.N("R") }, rT},
+		{"(ww)?w", func() *ag.Expr { return ag.S(ag.U(ag.Opt, ag.S(lit("w"), lit("w"))), lit("w")) }, nil},
 		// thorough
 		{"!l v", func() *ag.Expr { return ag.S(ag.U(ag.Not, lit("l")), lit("v")) }, nil},
 		{"<w>x", func() *ag.Expr { return ag.S(ag.U(ag.Cap, lit("w")), lit("x")) }, nil},
@@ -409,7 +410,7 @@ func F7(maxSize, maxLen int, variants []string) []*Case {
 		if !wellFormed(g) {
 			continue
 		}
-		out = append(out, &Case{Family: "F7", G: g, Sigma: []string{"a", "é", "汉", "😀"}, MaxLen: maxLen, Variants: variants, Mode: spec.ModeBehaviour, Print: idx%5 == 0})
+		out = append(out, &Case{Family: "F7", G: g, Sigma: []string{"a", "é", "汉", "😀", "\uFEFF"}, MaxLen: maxLen, Variants: variants, Mode: spec.ModeBehaviour, Print: idx%5 == 0})
 	}
 	return out
 }
@@ -476,7 +477,7 @@ func F10(maxSize, maxLen int, variants []string) []*Case {
 
 // ---------------------------------------------------------------- hostile byte inputs (C13)
 
-var HostileBytes = []string{"a", "b", "\x00", "\x80", "\xc3", "é", "\U00010000", "\U0010FFFF"}
+var HostileBytes = []string{"a", "b", "\x00", "\x80", "\xc3", "é", "\U00010000", "\U0010FFFF", "\uFEFF"}
 
 func hexAll(ss []string) []string {
 	out := make([]string, len(ss))
@@ -779,6 +780,11 @@ func NestedCaptures(maxLen int, variants []string) []*Case {
 		ag.G("NC/6", ag.Rule{Name: "S", Body: ag.S(cap(ag.A(ag.S(e(), cap(b()), c()), ag.S(e(), b()))), act())}),
 		ag.G("NC/7", ag.Rule{Name: "S", Body: ag.S(e(), cap(ag.S(b(), ag.U(ag.And, cap(c())))), act(), c())}),
 		ag.G("NC/8", ag.Rule{Name: "S", Body: ag.U(ag.Plus, ag.S(cap(ag.S(e(), ag.U(ag.Opt, cap(b())))), act()))}),
+		// an action right after a lookahead that completed (or completed and then failed) a capture
+		ag.G("NC/9", ag.Rule{Name: "S", Body: ag.S(cap(e()), ag.U(ag.And, cap(b())), act(), b())}),
+		ag.G("NC/10", ag.Rule{Name: "S", Body: ag.S(cap(e()), ag.U(ag.Not, ag.S(cap(b()), c())), act(), b())}),
+		ag.G("NC/11", ag.Rule{Name: "S", Body: ag.S(ag.U(ag.Plus, ag.S(cap(ag.U(ag.Plus, b())), act(), ag.U(ag.Opt, c()))), ag.U(ag.Not, ag.D()))}),
+		ag.G("NC/12", ag.Rule{Name: "S", Body: ag.S(ag.U(ag.Opt, ag.S(cap(b()), act())), ag.U(ag.Star, ag.S(cap(e()), act())))}),
 	}
 	var out []*Case
 	for _, g := range gs {
@@ -787,6 +793,82 @@ func NestedCaptures(maxLen int, variants []string) []*Case {
 			continue
 		}
 		out = append(out, &Case{Family: "NC", G: g, Sigma: []string{"é", "b", "c"}, MaxLen: maxLen, Variants: variants, Mode: spec.ModeBehaviour})
+	}
+	return out
+}
+
+
+// ---------------------------------------------------------------- F16: blank-like rules in front of inlined rules
+
+// F16: Z always succeeds and may consume ('b'*), and is used several times (so it is called, not
+// inlined); A is used exactly once right after a call of Z, in every save-point context.
+func F16(maxLen int, variants []string) []*Case {
+	Z, A := func() *ag.Expr { return ag.N("Z") }, func() *ag.Expr { return ag.N("A") }
+	nd := func() *ag.Expr { return ag.U(ag.Not, ag.D()) }
+	sBodies := []func() *ag.Expr{
+		func() *ag.Expr { return ag.S(Z(), ag.U(ag.Star, ag.S(Z(), A())), Z(), nd()) },
+		func() *ag.Expr { return ag.S(Z(), A(), Z()) },
+		func() *ag.Expr { return ag.S(ag.A(ag.S(Z(), A()), lit("x")), Z()) },
+		func() *ag.Expr { return ag.S(ag.U(ag.Opt, ag.S(Z(), A())), Z(), lit("x")) },
+		func() *ag.Expr { return ag.S(ag.U(ag.Plus, ag.S(Z(), A())), Z()) },
+		func() *ag.Expr { return ag.S(ag.U(ag.And, ag.S(Z(), A())), Z(), ag.D()) },
+		func() *ag.Expr { return ag.S(ag.U(ag.Cap, ag.S(Z(), A())), ag.Action(), Z()) },
+	}
+	aBodies := []func() *ag.Expr{
+		func() *ag.Expr { return ag.U(ag.Plus, lit("a")) },
+		func() *ag.Expr { return ag.S(lit("a"), ag.U(ag.Cap, ag.U(ag.Opt, lit("a")))) },
+		func() *ag.Expr { return ag.S(ag.Action(), lit("a")) },
+	}
+	zBodies := []func() *ag.Expr{
+		func() *ag.Expr { return ag.U(ag.Star, lit("b")) },
+		func() *ag.Expr { return ag.U(ag.Opt, lit("b")) },
+		func() *ag.Expr { return ag.A(ag.S(lit("b"), lit("b")), ag.E()) },
+	}
+	var out []*Case
+	idx := 0
+	for _, sb := range sBodies {
+		for _, ab := range aBodies {
+			for _, zb := range zBodies {
+				g := ag.G(fmt.Sprintf("F16/%d", idx), ag.Rule{Name: "S", Body: sb()}, ag.Rule{Name: "A", Body: ab()}, ag.Rule{Name: "Z", Body: zb()})
+				idx++
+				g.Number()
+				if !wellFormed(g) {
+					continue
+				}
+				out = append(out, &Case{Family: "F16", G: g, Sigma: strs('a', 'b', 'x'), MaxLen: maxLen, Variants: variants, Mode: spec.ModeBehaviour})
+			}
+		}
+	}
+	return out
+}
+
+
+// ---------------------------------------------------------------- F4L: every letter, case-insensitively
+
+// F4L: for every ASCII letter, the case-insensitive literal and class of that letter (written in
+// either case) and a case-insensitive range ending/starting at it, on inputs over both cases of the
+// letter, its neighbours, and the non-ASCII runes that Unicode case folding relates to ASCII letters
+// (U+212A KELVIN SIGN, U+017F LONG S), which the documented ASCII case-insensitivity must not match.
+func F4L(maxLen int, variants []string) []*Case {
+	ci := func(items ...ag.Item) *ag.Expr { return &ag.Expr{K: ag.Class, Items: items, CI: true} }
+	var out []*Case
+	idx := 0
+	for c := 'a'; c <= 'z'; c++ {
+		u := c - 'a' + 'A'
+		for _, e := range []*ag.Expr{
+			ag.LI(string(c)), ag.LI(string(u)), ci(ag.R(c, c)), ci(ag.R(u, u)), ci(ag.R('a', c)), ci(ag.R(u, 'Z')),
+		} {
+			g := single("F4L", idx, ag.S(e, ag.U(ag.Not, ag.D())))
+			idx++
+			sigma := []string{string(c), string(u), "\u212a", "\u017f", "{", "@"}
+			if c > 'a' {
+				sigma = append(sigma, string(c-1))
+			}
+			if c < 'z' {
+				sigma = append(sigma, string(u+1))
+			}
+			out = append(out, &Case{Family: "F4L", G: g, Sigma: sigma, MaxLen: maxLen, Variants: variants, Mode: spec.ModeBehaviour})
+		}
 	}
 	return out
 }
